@@ -382,3 +382,30 @@ def eval_pipeline_cases(ctx, batches, name):
                      {"rows": b["rows"], "stats": b["stats"]}, "model disagrees on this batch")
     ctx.extra["pipeline_batches_evaluated_in_coq"] = ctx.extra.get("pipeline_batches_evaluated_in_coq", 0) + len(exprs)
     ctx.extra["pipeline_rows_evaluated_in_coq"] = ctx.extra.get("pipeline_rows_evaluated_in_coq", 0) + sum(len(b["inputs"]) for b in keep)
+
+
+def witness_inputs(pid):
+    """minimised past failures / listed witnesses for a property: run first in every tier"""
+    out = []
+    for k in load_known():
+        if k.get("property") == pid and isinstance(k.get("witness"), dict) and "inputs" in k["witness"]:
+            out.append(list(k["witness"]["inputs"]))
+    p = os.path.join(CORPUS, pid + ".json")
+    if os.path.exists(p):
+        with open(p) as f:
+            out += [list(x) for x in json.load(f)]
+    return out
+
+
+def closed_shell(rxn):
+    """True when every molecule of the reaction parses and no atom carries radical electrons
+    (the domain 'valid closed-shell molecules' of C01/C02/C04/C15: the atom-map stripper deliberately
+    rewrites hydrogen-free bracket atoms such as [O] to their normal-valence form)."""
+    from rdkit import Chem
+    for side in rxn.split(">>"):
+        m = Chem.MolFromSmiles(side)
+        if m is None:
+            return False
+        if any(a.GetNumRadicalElectrons() != 0 for a in m.GetAtoms()):
+            return False
+    return True
